@@ -1,0 +1,22 @@
+//go:build verif
+
+package utils
+
+import (
+	db "github.com/tendermint/tm-db"
+)
+
+// VerifSetDBs replaces the storage handles (nil keeps the current one). Only
+// compiled with the `verif` build tag; used by the verification harness to keep
+// in-memory DBs across simulated restarts and to intercept writes.
+func (s *Storage) VerifSetDBs(state, event, snapshot db.DB) {
+	if state != nil {
+		s.stateDB = state
+	}
+	if event != nil {
+		s.eventDB = event
+	}
+	if snapshot != nil {
+		s.snapshotDB = snapshot
+	}
+}
